@@ -53,18 +53,18 @@ ASSUMPTIONS = [
 
 # additional theorem modules per property (namespace Cxx), beyond CoseProofs.Props.Cxx
 DEEP = {
-    "C01": ["CoseProofs.Deep.Chain", "CoseProofs.Deep.WireClosure", "CoseProofs.SignersTie", "CoseProofs.Deep.Signers", "CoseProofs.Deep.SignWireClosure", "CoseProofs.Deep.NestedBuckets"],
+    "C01": ["CoseProofs.Deep.Chain", "CoseProofs.Deep.WireClosure", "CoseProofs.SignersTie", "CoseProofs.Deep.Signers", "CoseProofs.Deep.SignWireClosure", "CoseProofs.Deep.NestedBuckets", "CoseProofs.Deep.NestedClosures", "CoseProofs.Deep.CsigRoundTrip"],
     "C02": ["CoseProofs.Deep.Tbs", "CoseProofs.SignersTie"],
     "C03": ["CoseProofs.Deep.Tbs", "CoseProofs.Deep.Tamper", "CoseProofs.SignersTie", "CoseProofs.Deep.Signers"],
     "C04": ["CoseProofs.FactsTie", "CoseProofs.Deep.Tamper"],
     "C05": ["CoseProofs.Deep.Reencode", "CoseProofs.Deep.Accept", "CoseProofs.Deep.SignMsg", "CoseProofs.Deep.NestedRoundTrip"],
     "C06": ["CoseProofs.Deep.NoPanic"],
     "C07": ["CoseProofs.Deep.Accept", "CoseProofs.Deep.Verifies"],
-    "C08": ["CoseProofs.Deep.Headers", "CoseProofs.Deep.RoundTrip", "CoseProofs.Deep.NestedRoundTrip", "CoseProofs.Deep.NestedBuckets"],
-    "C09": ["CoseProofs.Deep.Reencode", "CoseProofs.Deep.SignMsg", "CoseProofs.Deep.ClearRaw"],
+    "C08": ["CoseProofs.Deep.Headers", "CoseProofs.Deep.RoundTrip", "CoseProofs.Deep.NestedRoundTrip", "CoseProofs.Deep.NestedBuckets", "CoseProofs.Deep.CsigRoundTrip"],
+    "C09": ["CoseProofs.Deep.Reencode", "CoseProofs.Deep.SignMsg", "CoseProofs.Deep.ClearRaw", "CoseProofs.Deep.NestedClosures"],
     "C11": ["CoseProofs.Deep.SignMsg"],
     "C10": ["CoseProofs.Deep.Tbs", "CoseProofs.FactsTie", "CoseProofs.Deep.Tamper", "CoseProofs.SignersTie"],
-    "C12": ["CoseProofs.Deep.Keys", "CoseProofs.Deep.Chain", "CoseProofs.FactsTie", "CoseProofs.Deep.WireClosure"],
+    "C12": ["CoseProofs.Deep.Keys", "CoseProofs.Deep.Chain", "CoseProofs.FactsTie", "CoseProofs.Deep.WireClosure", "CoseProofs.Deep.NestedClosures"],
     "C13": ["CoseProofs.Deep.Headers", "CoseProofs.FactsTie", "CoseProofs.Deep.Verifies"],
     "C14": ["CoseProofs.Deep.Keys", "CoseProofs.Deep.KeyRoundTrip"],
     "C15": ["CoseProofs.Deep.Keys", "CoseProofs.FactsTie", "CoseProofs.Deep.KeyRoundTrip"],
